@@ -536,6 +536,19 @@ def check_transform(fns, what, bad):
     for k in ('list', 'leaf', 'object'):
         if k not in kinds:
             bad('C16-shape', f'{what}: _transform has no branch for {k} nodes')
+    # ---- one pass: transform() walks the tree once, with all callbacks applied in order at each node
+    self_calls = [n for n in ast.walk(tf) if isinstance(n, ast.Call) and isinstance(n.func, ast.Name)
+                  and n.func.id == tf.name]
+    walks = [n for n in ast.walk(tf) if isinstance(n, ast.Call) and isinstance(n.func, ast.Name)
+             and n.func.id == rt.name]
+    in_loop = any(isinstance(l, (ast.For, ast.While)) and any(w in list(ast.walk(l)) for w in walks)
+                  for l in ast.walk(tf))
+    if self_calls or len(walks) != 1 or in_loop:
+        bad('C16-order', f'{what}: transform() walks the tree {"once per callback" if self_calls or in_loop else str(len(walks)) + " times"} '
+                         f'instead of once with all callbacks applied in order at each node: an earlier callback '
+                         f'at a parent sees children rewritten only by itself, and replacement objects are '
+                         f'walked again by the later callbacks')
+        return stats
     # ---- the callback chain
     inner = [n for n in tf.body if isinstance(n, ast.FunctionDef)]
     # the callback chain is the local function handed to the rebuild; other local functions are helpers
